@@ -1240,6 +1240,12 @@ def undefined_name_rule(ctx: Ctx, functions, rule: str = "UNDEF") -> int:
                 bad.append((fi, x, f"`{x.id}` is read in {fi.qualname} but bound nowhere (no local, enclosing, module-level or builtin name)"))
         for x in unbound_reads(fn):
             bad.append((fi, x, f"`{x.id}` is read in {fi.qualname} before any assignment can reach the read"))
+        # nested functions (the tokeniser's `_apply_rest`): their own locals, by the same three shapes
+        for sub in ast.walk(fn):
+            if sub is not fn and isinstance(sub, (ast.FunctionDef, ast.AsyncFunctionDef)):
+                n += 1
+                for x in unbound_reads(sub):
+                    bad.append((fi, x, f"`{x.id}` is read in {fi.qualname}.{sub.name} before any assignment can reach the read"))
     ctx.check(not bad, rule, f"every name read resolves to a definition ({n} functions inspected)", function=bad[0][0].qualname if bad else "*",
               construct=bad[0][2] if bad else "ok", message="the read raises NameError / UnboundLocalError whenever that path is executed" if bad else "",
               file=bad[0][0].file if bad else next(iter(p.sources)), node=bad[0][1] if bad else None)
